@@ -67,8 +67,10 @@ Theorem directive_text_classified : forall n, n <> [] -> nosp n ->
   classify (s2l "#elif " ++ n) = KElif n /\ classify (s2l "#undef " ++ n) = KPlain (PUndef n) /\
   classify (s2l "#else") = KElse /\ classify (s2l "#endif") = KEndif.
 Proof.
-  intros n H1 H2. repeat split; [apply classify_ifdef|apply classify_ifndef|apply classify_elif|apply classify_undef|
-    apply classify_else_endif|apply classify_else_endif]; assumption.
+  intros n H1 H2. destruct classify_else_endif as (E1 & E2 & _).
+  split; [apply classify_ifdef; assumption|]. split; [apply classify_ifndef; assumption|].
+  split; [apply classify_elif; assumption|]. split; [apply classify_undef; assumption|].
+  split; [exact E1|exact E2].
 Qed.
 Print Assumptions directive_text_classified.
 
